@@ -37,7 +37,7 @@ class C17(Cfg):
 
     def streams(self, tier, seed, work, dv):
         res = []
-        plan = [(seed, 40, 22)] if tier == "quick" else [(seed, 900, 25), (seed + 1, 300, 60)]
+        plan = [(seed, 35, 22)] if tier == "quick" else [(seed, 900, 25), (seed + 1, 300, 60)]
         for i, (sd, n, ln) in enumerate(plan):
             path = os.path.join(work, "random%d.ops" % i)
             lib.sh([dv, "gen", "--prop", "C17", "--seed", str(sd), "--n", str(n), "--len", str(ln), "--out", path], check=True)
